@@ -512,6 +512,15 @@ def c17_extra(cases, impl, model, run_sharded, HAR, CACHE, pid):
             i = min(diff, key=lambda j: len(cases[j]))
             broken.append(f'feature set {name}: {len(diff)} outcome lines differ from the default build')
             res['failing'] = dict(case=cases[i], printable=cases[i], default_features=impl[i], other=out[i], feature_set=name)
+    # inventory of the feature gates in the source: a gate that is not in the committed table can make behaviour depend on the feature set
+    here = os.path.dirname(os.path.abspath(__file__)); repo = os.environ.get('VERIF_REPO', '/repo')
+    r = subprocess.run(['python3', f'{here}/feature_gates.py', 'check', f'{repo}/purl/src', f'{here}/feature_gates.json'], capture_output=True, text=True)
+    try:
+        d = json.loads(r.stdout); res['feature_gates'] = dict(total=d['total'], new=len(d['new']), gone=len(d['gone']))
+        if d['new']:
+            broken.append('feature-gate inventory: %d gate(s) in the source are not in the table: %s' % (len(d['new']), '; '.join(f"{g['file']}: #[cfg({g['gate']})] {g['item'][:60]}" for g in d['new'][:4])))
+    except Exception as e:
+        broken.append(f'feature-gate scanner failed: {e} {r.stderr[-300:]}')
     if broken: res['broken'] = broken
     return res
 PROPS['C17'] = dict(
@@ -524,7 +533,7 @@ PROPS['C17'] = dict(
     compare=c17_compare, extra=c17_extra,
     rule='one deterministic stream (token language, seeded spellings, faults, builder, qualifier and checksum sequences) run through the harness built with '
          '{default}, {no features}, {package-type}, {default+serde}; every transcript compared line by line with the default one and with the extracted model '
-         '(the typed API only where it exists); error texts are compared through their variants',
+         '(the typed API only where it exists); error texts are compared through their variants; every #[cfg]/cfg!() gate of the source must be in the committed inventory (tools/feature_gates.json)',
     assumptions=['feature selection is a build-time fact below the model: the Coq content is only that the model is one deterministic function'],
 )
 # ------------------------------------------------------------------ C18
